@@ -65,7 +65,7 @@ theorem fq_pow_loop_opt_eq_ref (p : ℤ) : ∀ (f : ℕ) (st : ℤ × ℤ × ℤ
   induction f with
   | zero => intro st; rfl
   | succ f ih =>
-    rintro ⟨o, e, t⟩
+    rintro ⟨e, o, t⟩
     unfold Opt.FQ.pow_loop0 Ref.FQ.pow_loop0
     by_cases h : e > 0
     · simp only [h, if_true]; exact ih _
